@@ -60,12 +60,12 @@ def ItemWF : PItem → Prop
 
 instance decAtomTermWF : (t : PTerm) → Decidable (AtomTermWF t)
   | .set _ => inferInstanceAs (Decidable False)
-  | .param _ | .var _ | .int _ | .str _ | .date _ | .bytes _ | .bool _ =>
+  | .param _ | .var _ | .int _ | .negInt _ | .str _ | .date _ | .bytes _ | .bool _ =>
     inferInstanceAs (Decidable True)
 
 instance decTermWF : (t : PTerm) → Decidable (TermWF t)
   | .set elts => inferInstanceAs (Decidable (elts ≠ [] ∧ ∀ t ∈ elts, AtomTermWF t))
-  | .param _ | .var _ | .int _ | .str _ | .date _ | .bytes _ | .bool _ =>
+  | .param _ | .var _ | .int _ | .negInt _ | .str _ | .date _ | .bytes _ | .bool _ =>
     inferInstanceAs (Decidable True)
 
 instance decWF : (e : PExpr) → Decidable (WF e)
